@@ -1767,7 +1767,7 @@ class Interp:
             cand_ = self.module_name(self.module, f.id)
             if isinstance(cand_, (AFunc, AClass)) or (isinstance(cand_, AObj) and '__callable__' in cand_.attrs):
                 fv = cand_
-        elif isinstance(f, (ast.Subscript, ast.Call, ast.IfExp)):
+        elif isinstance(f, (ast.Subscript, ast.Call, ast.IfExp, ast.Lambda)):
             fv = self.expr(f, env)
         if fv is None and isinstance(f, ast.Name) and f.id not in env and f.id not in self.classes and f.id not in self.functions and self.module is not None:
             r_ = self.module_name(self.module, f.id)
